@@ -204,7 +204,7 @@ def run(ctx):
                     {"shape": shape, "problems": bad})
     worldgen.compare(ctx, hists, "cache", "C03 uuid table correspondence")
     import loadedworld
-    lh = loadedworld.stream(ctx, g, ctx.rng, 12 if ctx.quick else 300, 15 if ctx.quick else 30, "loaded")
+    lh = loadedworld.stream(ctx, g, ctx.rng, 12 if ctx.quick else 300, 15 if ctx.quick else 30, "loaded", what={"cache", "forest"})
     ctx.cov["histories_continued_from_loaded_files"] = len(lh)
     ctx.cov["histories"] = nh
     ctx.cov["traces_validated_against_impl"] = nh
